@@ -25,5 +25,6 @@ verus! {
 //@include ghost_lm_opt.rs
 //@include ghost_lf.rs
 //@include ghost_c04.rs
+//@include ghost_c11.rs
 } // verus!
 fn main() {}
